@@ -18,10 +18,40 @@ struct hole_t final : public function_t
         return at0 ? 0.0 : -std::numeric_limits<scalar_t>::infinity();
     }
 };
+// second scenario: the slope g.d along the direction is NaN (gradient NaN at x0, finite value): not a descent direction,
+// so every line search must refuse it (ok = false) and leave the state untouched (same point, no further evaluation).
+struct nanslope_t final : public function_t
+{
+    nanslope_t() : function_t("nanslope", 1) { convex(convexity::no); smooth(smoothness::yes); }
+    rfunction_t clone() const override { return std::make_unique<nanslope_t>(*this); }
+    scalar_t    do_vgrad(vector_cmap_t x, vector_map_t gx) const override
+    {
+        if (gx.size() == x.size()) { gx(0) = (x(0) == 0.0) ? std::numeric_limits<scalar_t>::quiet_NaN() : 2.0 * x(0); }
+        return x(0) * x(0);
+    }
+};
 int main()
 {
-    int bad = 0;
+    int  bad = 0;
+    bool first_entry = true;
     std::printf("[");
+    for (const auto& id : {"backtrack", "lemarechal", "fletcher", "morethuente", "cgdescent"})
+    {
+        auto        ls = lsearchk_t::all().get(id);
+        nanslope_t  f;
+        vector_t    x0(1);
+        x0(0)      = 0.0;
+        auto        state  = solver_state_t{f, x0};
+        const auto  calls0 = f.fcalls() + f.gcalls();
+        vector_t    d(1);
+        d(0)               = -1.0;
+        const auto [ok, t] = ls->get(state, d, 1.0, make_null_logger());
+        const bool viol    = ok || state.x()(0) != 0.0 || (f.fcalls() + f.gcalls()) != calls0;
+        bad += viol ? 1 : 0;
+        std::printf("%s{\"lsearchk\": \"%s\", \"scenario\": \"NaN slope\", \"ok\": %d, \"t\": %g, \"state_x\": %g, \"evaluations_after_entry\": %d, \"violates\": %d}",
+                    first_entry ? "" : ", ", id, ok ? 1 : 0, t, state.x()(0), static_cast<int>(f.fcalls() + f.gcalls() - calls0), viol ? 1 : 0);
+        first_entry = false;
+    }
     for (const auto& id : {"backtrack", "lemarechal", "fletcher", "morethuente", "cgdescent"})
     {
         for (int iters : {1, 2, 3, 128})
@@ -38,8 +68,10 @@ int main()
             const auto off     = std::fabs(state.x()(0) - (0.0 + t * -1.0));
             const bool viol    = ok && (!state.valid() || !(off <= 1e-12));
             bad += viol ? 1 : 0;
+            const bool nv_first = first_entry;
+            first_entry = false;
             std::printf("%s{\"lsearchk\": \"%s\", \"max_iterations\": %d, \"ok\": %d, \"t\": %g, \"state_x\": %g, \"fx\": %g, \"valid\": %d, \"violates\": %d}",
-                        (bad || iters > 1 || std::string(id) != "backtrack") ? ", " : "", id, iters, ok ? 1 : 0, t, state.x()(0), state.fx(),
+                        nv_first ? "" : ", ", id, iters, ok ? 1 : 0, t, state.x()(0), state.fx(),
                         state.valid() ? 1 : 0, viol ? 1 : 0);
         }
     }
